@@ -527,9 +527,10 @@ class Exec:
     def write(self, st, ref, new):
         ref = self.canon_prefix(st, ref)
         self.check_alias_hazard(st, ref)
+        st.ghost["__epoch__"] = st.ghost.get("__epoch__", 0) + 1
+        st.heap[ref.root] = self.upd(st, st.heap[ref.root], list(ref.path), new)
         if st.rec and ref.root not in st.rec[-1].fresh:
             st.rec[-1].log_write(self, st, ref, new)
-        st.heap[ref.root] = self.upd(st, st.heap[ref.root], list(ref.path), new)
 
     def canon_prefix(self, st, ref):
         """Canonicalise all but the last step (the last step may not exist yet)."""
@@ -717,6 +718,11 @@ class Exec:
         if isinstance(a, HSet) and isinstance(b, HSet):
             bb = subst(b, [(b.binder, a.binder)]) if not a.binder.eq(b.binder) else b
             return HSet(a.kty, a.binder, t_ite(c, a.mem, bb.mem))
+        if isinstance(a, HListC) and isinstance(b, HListC):
+            be = subst(b.elem, [(b.binder, a.binder)]) if not a.binder.eq(b.binder) else b.elem
+            return HListC(t_ite(c, a.length, b.length), a.binder, self.v_ite(c, a.elem, be), a.elem_ty)
+        if isinstance(a, HPySet) and isinstance(b, HPySet) and not a.items and not b.items:
+            return a
         if isinstance(a, HObj) and isinstance(b, HObj) and a.cls == b.cls:
             names = set(a.fields) | set(b.fields)
             if a.lazy is None or b.lazy is None:
